@@ -88,7 +88,7 @@ impl Shape {
         v
     }
     fn cfg(&self) -> AuthCfg {
-        AuthCfg { counters: self.counters, id_len: Some(24), hmac: if self.ext_fail { HmacCfg::UvOnly } else if self.prf { HmacCfg::WithoutUv } else { HmacCfg::None }, hmac_mc: self.prf }
+        AuthCfg { counters: self.counters, id_len: Some(24), hmac: if self.ext_fail { HmacCfg::UvOnly } else if self.prf { HmacCfg::WithoutUv } else { HmacCfg::None }, hmac_mc: self.prf, ..Default::default() }
     }
 }
 
